@@ -21,3 +21,5 @@ META = {
 def run(ctx):
     S.r06_5_dumper_sinks(ctx, 'R12.0')
     S.r12_sinks(ctx)
+    from . import dumpside as D
+    D.r12_6_options_forwarded(ctx)
